@@ -4,6 +4,8 @@ import itertools, os, glob
 WORDS = ['foo', 'bar', 'x', 'the quick', 'a b', '(a)', '1.', '2', 'Section', 'part', 'ITEM', 'P',
          'אב', 'été', '\U0001F600', 'مرحبا', '-', 'a - b',
          # not in Unicode normal form C / compatibility characters / separators that are not line breaks for the grammar
+         # a backslash where layout begins: at the end of a word (followed by trailing spaces or the line end), doubled, before a tab
+         'foo\\', 'C:\\temp\\\\', '\\', 'a\\ b',
          '90 \u212a', 'cafe\u0301', '\u2126', '\ufb01n', 'a\u2028b', 'c\u0085d', '\ufeff', 'x\u200by']
 
 def indentation_sequences(max_lines, widths):
@@ -138,8 +140,10 @@ def gen_inline(rng, W, depth=0):
         elif r < 0.81:
             parts.append('{{>' + rng.choice(['http://x.y/z', '#sec_1', '', 'http://x.y/a\u00a0b', '#a\u2009b']) + ' ' + gen_inline(rng, W, depth + 1) + '}}')
         elif r < 0.84:
-            if rng.random() < 0.3:
-                parts.append('{{*' + gen_inline(rng, W, depth + 1) + '\x01' + gen_inline(rng, W, depth + 1) + '}}')     # a remark that spans lines
+            if rng.random() < 0.4:
+                # a remark that spans lines - also the boundary shapes: nothing but line breaks, a break first, a break last
+                a, b = gen_inline(rng, W, depth + 1), gen_inline(rng, W, depth + 1)
+                parts.append('{{*' + rng.choice([a + '\x01' + b, a + '\x01' + b, '\x01', '\x01\x01', a + '\x01', '\x01' + b, a + '\x01\x01' + b]) + '}}')
             else:
                 parts.append('{{*' + gen_inline(rng, W, depth + 1) + '}}')
         elif r < 0.87:
